@@ -451,11 +451,42 @@ pub fn optional_anchors() -> Vec<(String, bool)> {
     let _ = ctx.seal(&unhex("436f756e742d30"), &pt);
     let ct1 = ctx.seal(&unhex("436f756e742d31"), &pt);
     let ct2 = ctx.seal(&unhex("436f756e742d32"), &pt);
-    vec![
+    // further vectors recalled from RFC 9180 appendix A; each is kept only if it reproduces exactly
+    let mut more: Vec<(String, bool)> = vec![];
+    {
+        // A.1.2: DHKEM(X25519), HKDF-SHA256, AES-128-GCM, mode_psk
+        let ikm_e = unhex("78628c354e46f3e169bd231be7b2ff1c77aa302460a26dbfa15515684c00130b");
+        let ikm_r = unhex("d4a09d09f575fef425905d2ab396c1449141463f698f8efdb7accfaff8995098");
+        let psk = unhex("0247fd33b913760fa1fa51e1892d9f307fbe65eb171e8132c2af18555a738b82");
+        let psk_id = unhex("456e6e796e20447572696e206172616e204d6f726961");
+        let (_, pk_r, _) = derive_keypair(KemId::X25519, &ikm_r);
+        more.push(("A.1.2 pkRm".into(), hex(&pk_r) == "9fed7e8c17387560e92cc6462a68049657246a09bfa8ade7aefe589672016366"));
+        if let Some((enc, c, _)) = setup_s(KemId::X25519, KdfId::S256, AeadId::Aes128, ModeKind::Psk, &pk_r, &info, &psk, &psk_id, None, &ikm_e) {
+            more.push(("A.1.2 enc".into(), hex(&enc) == "0ad0950d9fb9588e59690b74f1237ecdf1d775cd60be2eca57af5a4b0471c91b"));
+            more.push(("A.1.2 key".into(), hex(&c.key) == "15026dba546e3ae05836fc7de5a7bb26"));
+            more.push(("A.1.2 base_nonce".into(), hex(&c.base_nonce) == "9518635eba129d5ce0914555"));
+        }
+    }
+    {
+        // A.3.1: DHKEM(P-256), HKDF-SHA256, AES-128-GCM, mode_base
+        let ikm_e = unhex("4270e54ffd08d79d5928020af4686d8f6b7d35dbe470265f1f5aa22816ce860e");
+        let ikm_r = unhex("668b37171f1072f3cf12ea8a236a45df23fc13b82af3609ad1e354f6ef817550");
+        let (_, pk_r, _) = derive_keypair(KemId::P256, &ikm_r);
+        more.push(("A.3.1 pkRm".into(), hex(&pk_r) == "04fe8c19ce0905191ebc298a9245792531f26f0cece2460639e8bc39cb7f706a826a779b4cf969b8a0e539c7f62fb3d30ad6aa8f80e30f1d128aafd68a2ce72ea0"));
+        if let Some((enc, c, _)) = setup_s(KemId::P256, KdfId::S256, AeadId::Aes128, ModeKind::Base, &pk_r, &info, b"", b"", None, &ikm_e) {
+            more.push(("A.3.1 enc".into(), hex(&enc) == "04a92719c6195d5085104f469a8b9814d5838ff72b60501e2c4466e5e67b325ac98536d7b61a1af4b78e5b7f951c0900be863c403ce65c9bfcb9382657222d18c4"));
+            more.push(("A.3.1 key".into(), hex(&c.key) == "868c066ef58aae6dc589b6cfdd18f97e"));
+            more.push(("A.3.1 base_nonce".into(), hex(&c.base_nonce) == "4e0bc5018beba4bf004cca59"));
+            more.push(("A.3.1 exporter_secret".into(), hex(&c.exporter_secret) == "14ad94af484a7ad3ef40e9f3be99ecc6fa9036df9d4920548424df127ee0d99f"));
+        }
+    }
+    let mut base = vec![
         ("A.1.1 seq1 ct".into(), hex(&ct1) == "af2d7e9ac9ae7e270f46ba1f975be53c09f8d875bdc8535458c2494e8a6eab251c03d0c22a56b8ca42c2063b84"),
         ("A.1.1 seq2 ct".into(), hex(&ct2) == "498dfcabd92e8acedc281e85af1cb4e3e31c7dc394a1ca20e173cb72516491588d96a19ad4a683518973dcc180"),
         ("A.1.1 export ''".into(), hex(&ctx.export(b"", 32).unwrap()) == "3853fe2b4035195a573ffc53856e77058e15d9ea064de3e59f4961d0095250ee"),
         ("A.1.1 export 00".into(), hex(&ctx.export(&[0], 32).unwrap()) == "2e8f0b54673c7029649d4eb9d5e33bf1872cf76d623ff164ac185da9e88c21a5"),
         ("A.1.1 export TestContext".into(), hex(&ctx.export(b"TestContext", 32).unwrap()) == "e9e43065102c3836401bed8c3c3c75ae46be1639869391d62c61f1ec7af54931"),
-    ]
+    ];
+    base.extend(more);
+    base
 }
